@@ -30,8 +30,17 @@ claim("C08",
       "The 'in every build configuration' clause decided statically: every tag/arch configuration of the packages with build-tag twins type-checks and exports one API; the r3 safe/unsafe 3x3 builders agree element by element; Go kernels address each operand with its own increment. Equality of assembly or noasm loops with the scalar definitions is NOT decided.",
       TRUST, "DESIGN.md §3.1, §3.11, §4 C08")
 
+claim("C05",
+      "custom CFG must-dataflow (overlap-guard-before-kernel-write) over mat methods",
+      "The aliasing mechanism of C05 decided for all paths and dispatch arms of the receiver-taking mat methods: every kernel write of the destination that also reads an operand's raw storage is preceded on every path by an overlap guard, identity edge, isolated workspace or guarded delegation; isolatedWorkspace results are restored. Three pre-existing unguarded arms (Dense.Mul with SymDense/TriDense operand, SymRankK's x) are reproduced and recorded as known findings. The overlap predicate's arithmetic and operand immutability are NOT decided.",
+      TRUST, "DESIGN.md §3.5, §4 C05")
+claim("C06",
+      "custom CFG def-use and path analysis of status results (ok/error/Condition discipline)",
+      "The 'reported through ok/error rather than a silently wrong answer' clause decided for every call site and return in mat, lapack64 and lapack/gonum: no LAPACK/mat status is dropped, no success is returned on the path where a callee failed, every solver can return Condition and does so exactly under cond > ConditionTolerance. Reconstruction identities and update formulas are NOT decided.",
+      TRUST, "DESIGN.md §3.6, §4 C06")
+
 PENDING = "check not built yet in this round (see DESIGN.md §8 build order); not claimed until it is"
-for p in ["C05","C06","C09","C12","C16","C17","C18","C19"]:
+for p in ["C09","C12","C16","C17","C18","C19"]:
     na(p, PENDING)
 
 na("C10", "every clause is an identity between floating-point values of different calls (permutation/affine invariance, quantile coherence, PSD-ness); no clause is visible in the shape of the code, so no sound static rule applies")
